@@ -56,19 +56,48 @@ func TestVerif_C14_Sessions(t *testing.T) {
 		if small {
 			W, R = rapid.IntRange(2, 5).Draw(rt, "W"), rapid.IntRange(2, 5).Draw(rt, "R")
 		}
-		recv := vNewDev("R", W, R)
+		// shape of the session: independent senders on multi-member groups, or ONE sender device known on several groups
+		// (the account group and one-to-one groups of a multi-device account: the receiver is the sibling device)
+		sameDevice := rapid.IntRange(0, 3).Draw(rt, "sameDevice") == 0
+		var recv, sibling *vDev
 		nG := rapid.IntRange(1, 2).Draw(rt, "groups")
 		var groups []*protocoltypes.Group
-		for i := 0; i < nG; i++ {
-			g, _, _ := protocoltypes.NewGroupMultiMember()
-			_ = recv.s.PutGroup(vctx, g)
-			groups = append(groups, g)
+		if sameDevice {
+			sibling = vNewDev("S0", W, R)
+			recv = vSecondDevice("R", sibling, W, R)
+			nG = rapid.IntRange(2, 3).Draw(rt, "groups-same-device")
+			for i := 0; i < nG; i++ {
+				var g *protocoltypes.Group
+				if i == 0 && rapid.Bool().Draw(rt, "account-group") {
+					g, _, _ = sibling.s.GetGroupForAccount()
+				} else {
+					g, _ = sibling.s.GetGroupForContact(vNewDev(fmt.Sprintf("C%d", i), 4, 4).account())
+				}
+				_ = recv.s.PutGroup(vctx, g)
+				groups = append(groups, g)
+			}
+		} else {
+			recv = vNewDev("R", W, R)
+			for i := 0; i < nG; i++ {
+				g, _, _ := protocoltypes.NewGroupMultiMember()
+				_ = recv.s.PutGroup(vctx, g)
+				groups = append(groups, g)
+			}
 		}
 		nS := rapid.IntRange(1, 2).Draw(rt, "senders")
+		if sameDevice {
+			nS = nG
+		}
 		var snd []*c14Sender
 		for i := 0; i < nS; i++ {
-			d := vNewDev(fmt.Sprintf("S%d", i), W, R)
-			gi := rapid.IntRange(0, nG-1).Draw(rt, "gi")
+			var d *vDev
+			gi := 0
+			if sameDevice {
+				d, gi = sibling, i
+			} else {
+				d = vNewDev(fmt.Sprintf("S%d", i), W, R)
+				gi = rapid.IntRange(0, nG-1).Draw(rt, "gi")
+			}
 			g := groups[gi]
 			_ = d.s.PutGroup(vctx, g)
 			pre := rapid.IntRange(0, 2).Draw(rt, "pre")
@@ -285,7 +314,7 @@ func TestVerif_C14_Sessions(t *testing.T) {
 		nt := both == 3 && nearEdge
 		acct.Case(nt, fmt.Sprintf("%d|%d|%s", W, R, strings.Join(hist, ",")), func() any {
 			return map[string]any{"kind": "session", "window": W, "refs": R, "senders": nS, "groups": nG, "history": hist}
-		}, "sessions", lbl(both&1 != 0, "log-then-push"), lbl(both&2 != 0, "push-then-log"), lbl(pushTwice, "push-twice"), lbl(nearEdge, "near-reference-edge"), lbl(tampered, "tampered"), lbl(forgedInsider, "insider-forged-push"), lbl(nS > 1, "two-senders"), lbl(nG > 1, "two-groups"), lbl(!small, "default-windows"))
+		}, "sessions", lbl(both&1 != 0, "log-then-push"), lbl(both&2 != 0, "push-then-log"), lbl(pushTwice, "push-twice"), lbl(nearEdge, "near-reference-edge"), lbl(tampered, "tampered"), lbl(forgedInsider, "insider-forged-push"), lbl(nS > 1, "two-senders"), lbl(nG > 1, "two-groups"), lbl(!small, "default-windows"), lbl(sameDevice, "same-sender-device-on-several-groups"))
 	})
 }
 
